@@ -213,6 +213,7 @@ type knobs struct {
 	lifecycle          bool
 	mutator            bool
 	share              int
+	stopper            int // percent of runs in which the Config context is cancelled while clients are still at work
 }
 
 func knobsFor(prop string, faulty bool) knobs {
@@ -253,6 +254,7 @@ func knobsFor(prop string, faulty bool) knobs {
 			k.cbSlow = 40
 			k.pInvalid = 25
 			k.long = 8
+			k.stopper = 12
 		}
 	case "C07":
 		k.watchMin, k.watchMax = 2, 3
@@ -282,6 +284,7 @@ func knobsFor(prop string, faulty bool) knobs {
 		k.cbBlock = 25
 		k.cbSlow = 15
 		k.long = 10
+		k.stopper = 15
 	case "C09":
 		k.pDelay = 80
 		k.pSkip = 5
@@ -294,6 +297,8 @@ func knobsFor(prop string, faulty bool) knobs {
 		if faulty {
 			k.pExpired = 10
 			k.pDeadline = 10
+			k.cbSlow = 30
+			k.long = 8
 		}
 	case "C02":
 		k.doneOps = 35
@@ -420,6 +425,9 @@ func genCore(prop string, seed uint64, faulty bool) *Scenario {
 				}
 				op.Ctx, op.D = g.ctxKind(k.pDeadline, k.pExpired)
 				c.Ops = append(c.Ops, op)
+				if op.Str != "fail" && g.pct(30) {
+					c.Ops = append(c.Ops, Op{K: "setsource", Str: "retry"})
+				}
 				if g.pct(30) {
 					c.Ops = append(c.Ops, Op{K: "sleep", D: int64(g.in(1, 500)) * 1e6})
 				}
@@ -470,6 +478,10 @@ func genCore(prop string, seed uint64, faulty bool) *Scenario {
 	}
 	if sc.Delay && g.pct(k.enablers) {
 		c := ClientSpec{Name: "enabler", Kind: "enabler"}
+		if long && g.pct(50) {
+			// enable late: behind a backlog of callback events if there ever is one
+			c.Ops = append(c.Ops, Op{K: "await-backlog"})
+		}
 		for o, n := 0, g.in(1, 4); o < n; o++ {
 			op := Op{K: "enable"}
 			op.Ctx, op.D = g.ctxKind(k.pDeadline, k.pExpired)
@@ -478,6 +490,19 @@ func genCore(prop string, seed uint64, faulty bool) *Scenario {
 				c.Ops = append(c.Ops, Op{K: "sleep", D: int64(g.in(1, 400)) * 1e6})
 			}
 		}
+		sc.Clients = append(sc.Clients, c)
+	}
+	if g.pct(k.stopper) {
+		// the Config context ends at an arbitrary point of everybody else's work
+		c := ClientSpec{Name: "stopper", Kind: "stopper"}
+		for o, n := 0, g.in(0, 3); o < n; o++ {
+			if g.pct(50) {
+				c.Ops = append(c.Ops, Op{K: "pause", N: g.in(1, 300)})
+			} else {
+				c.Ops = append(c.Ops, Op{K: "sleep", D: int64(g.in(1, 600)) * 1e6})
+			}
+		}
+		c.Ops = append(c.Ops, Op{K: "cancel-config"})
 		sc.Clients = append(sc.Clients, c)
 	}
 	if k.mutator {
@@ -507,7 +532,7 @@ func genCore(prop string, seed uint64, faulty bool) *Scenario {
 		hasDone := false
 		for _, c := range sc.Clients {
 			for _, op := range c.Ops {
-				if op.K == "done" || op.K == "bdone" {
+				if op.K == "done" || op.K == "bdone" || op.K == "cancel-config" {
 					hasDone = true
 				}
 			}
@@ -596,10 +621,16 @@ func (g *gen) registrar(k knobs, i int, long bool) ClientSpec {
 		cb := "instant"
 		if g.pct(k.cbSlow) {
 			cb = "slow"
+			if g.pct(35) {
+				cb = "stall"
+			}
 		} else if g.pct(10) {
 			cb = "reentrant"
 		}
 		reg := Op{K: "register", Str: cb}
+		if cb == "stall" {
+			reg.N = []int{1, 2, 4, 8}[g.r.IntN(4)] // seconds
+		}
 		if k.lifecycle {
 			reg.Ctx, reg.D = g.ctxKind(k.pDeadline, k.pExpired)
 		}
